@@ -12,7 +12,7 @@ BACKENDS = ()
 CHUNK = 4
 
 SEEDS = ['flat', 'h1', 'h2', 'shared', 'yaml', 'hmod', 'ybase']
-MUTATORS = ['upd', 'matrix', 'addedge', 'run_inplace']
+MUTATORS = ['upd', 'matrix', 'addedge', 'run_inplace', 'run_keep']
 READS = ['run', 'grf', 'jac', 'get_nodes', 'get_edges_all', 'get_edges_sel', 'get_edge', 'collect_edges',
          'get_node_template', 'getitem', 'to_yaml', 'deepcopy', 'update_template', 'load_derived', 'derive_nodes',
          'grid_search', 'derive_operator']
@@ -146,6 +146,10 @@ def mutate(c, info, m):
     elif m == 'addedge':
         c.update_template(edges=[(f"{info['nodes'][-1]}/so/x", f"{info['nodes'][0]}/to/u", None, {'weight': 0.125})],
                           in_place=True)
+    elif m == 'run_keep':
+        # an in-place run that keeps its compiled state and final state on the template (continuation)
+        c.run(simulation_time=0.25, outputs={'o': f"{info['nodes'][0]}/so/x"}, solver='euler', vectorize=False,
+              clear=False, in_place=True, **KW)
     elif m == 'run_inplace':
         c.run(simulation_time=0.25, outputs={'o': f"{info['nodes'][0]}/so/x"}, solver='euler', vectorize=True,
               clear=True, in_place=True, **KW)
